@@ -219,6 +219,46 @@ def twin_block_values(flag: bool, num: int, text: str, raise_inside: bool, set_i
     return check_block_values(flag, num, text, raise_inside, set_inside)
 
 
+# ---------------------------------------------------------------------------- what the block hands out is a copy
+def _yielded(v: bool, s0: bool, s1: bool, empty: bool, new_key: bool, raise_inside: bool, set_inside: bool) -> bool:
+    """The dict a block yields (``with global_options(...) as opts``) is the caller's: writing to it -- also in a block entered
+    without any option -- changes nothing, and the block still restores the previous options."""
+    opt = Opt()
+    opt.set_options(**{K1: s0, K2: s1})
+    before = opt.get_options()
+    try:
+        with (opt.global_options() if empty else opt.global_options(**{K2: v})) as opts:
+            inner = dict(before)
+            if not empty:
+                inner[K2] = v
+            opts[K1] = not s0
+            if new_key:
+                opts["junk"] = 1
+            if not same(opt.get_options(), inner):
+                return False
+            if set_inside:
+                opt.set_options(**{K3: "^"})
+            if raise_inside:
+                raise Boom()
+    except Boom:
+        pass
+    return same(opt.get_options(), before) and same(opt.get_options(defaults=True), DEFAULTS)
+
+
+def check_yielded(v: bool, s0: bool, s1: bool, empty: bool, new_key: bool, raise_inside: bool, set_inside: bool) -> bool:
+    """
+    post: _
+    """
+    return _yielded(v, s0, s1, empty, new_key, raise_inside, set_inside)
+
+
+def twin_yielded(v: bool, s0: bool, s1: bool, empty: bool, new_key: bool, raise_inside: bool, set_inside: bool) -> bool:
+    """
+    post: not _
+    """
+    return _yielded(v, s0, s1, empty, new_key, raise_inside, set_inside)
+
+
 # ---------------------------------------------------------------------------- one object, entered again while active
 def _decorated(v: bool, fail: bool, s0: bool, s1: bool, depth: int) -> bool:
     """One global_options object used as a decorator on a function that calls itself: the same object is entered again while
